@@ -289,6 +289,42 @@ func run(repo string) (string, error) {
 		})
 	}
 
+	// client.run leaves a reader on errc behind (so a later reportError cannot block a pipeline stage)
+	runDrains := false
+	if rf := ex.FuncDecl(cf, "client", "run"); rf != nil {
+		walk(rf, func(n ast.Node, st []ast.Node) {
+			if d, ok := n.(*ast.DeferStmt); ok {
+				t := txt(d)
+				if strings.Contains(t, "go func()") && strings.Contains(t, "<-c.errc") && strings.Contains(t, "<-c.ctx.Done()") && strings.Contains(t, "for {") {
+					runDrains = true
+				}
+			}
+		})
+	}
+	// every connection has its own signing key pair: newClient draws it, signFn signs with it, sendID presents it
+	perConnKey := false
+	if nc := ex.FuncDecl(cf, "", "newClient"); nc != nil {
+		draw, pub := false, false
+		walk(nc, func(n ast.Node, st []ast.Node) {
+			if a, ok := n.(*ast.AssignStmt); ok {
+				switch txt(a) {
+				case "c.localSecKey = c.suite.Scalar().Pick(c.suite.RandomStream())":
+					draw = true
+				case "c.localPubKey = c.suite.Point().Mul(c.localSecKey, nil)":
+					pub = true
+				}
+			}
+		})
+		signs, presents := false, false
+		if sf := ex.FuncDecl(cf, "client", "signFn"); sf != nil {
+			signs = strings.Contains(txt(sf.Body), "bls.Sign(c.suite, c.localSecKey, msg)")
+		}
+		if sid := ex.FuncDecl(cf, "client", "sendID"); sid != nil {
+			presents = strings.Contains(txt(sid.Body), "c.localPubKey.MarshalBinary()")
+		}
+		perConnKey = draw && pub && signs && presents
+	}
+
 	s := ex.Header("P2PFlow", "p2p/client.go, p2p/server.go, utils/utils.go")
 	s += "namespace Dos.Gen\n"
 	s += "/-- every write `requests[…] = …` in dispatch is `requests[nonce] = &req` under `if req.rType != replyReq` -/\n"
@@ -311,6 +347,10 @@ func run(repo string) (string, error) {
 	s += fmt.Sprintf("def decodeVerifiesFirst : Bool := %s\n", lb(decVerifies && pipePassesVerify && pipeDecodeErr && verifyFnUsesRemoteKey))
 	s += "/-- decodePipe verifies the payload signature under c.remotePubKey again and drops the frame on failure -/\n"
 	s += fmt.Sprintf("def decodePipeVerifiesAgain : Bool := %s\n", lb(pipeVerifies))
+	s += "/-- client.run defers a goroutine that keeps receiving from c.errc until c.ctx ends -/\n"
+	s += fmt.Sprintf("def runKeepsDrainingErrors : Bool := %s\n", lb(runDrains))
+	s += "/-- newClient draws a fresh signing key pair per connection; signFn signs with it, sendID presents its public half -/\n"
+	s += fmt.Sprintf("def signingKeyPerConnection : Bool := %s\n", lb(perConnKey))
 	s += "end Dos.Gen\n"
 	return s, nil
 }
